@@ -214,9 +214,7 @@ def run(ctx):
                         parts = t.split(";")
                         eb = [int(x, 16) for x in e.split(";")]
                         ncomp = 2 if ty[0] == 'c' else 1
-                        if ncomp == 2 and len(parts) == 1:
-                            parts = parts + ["0"]      # a real number on a line of a complex field: imaginary part zero
-                                                       # (dirfile-encoding(5) asks for "a decimal text encoding, one sample per line")
+                        # (a complex sample needs both parts on its line: the library's own reader accepts nothing else — 5.84)
                         if len(parts) != ncomp:
                             bad = "line %d '%s' has %d components" % (i, t, len(parts))
                             break
